@@ -73,7 +73,7 @@ func checkDefs() map[string]*CheckDef {
 				r := []RunSpec{
 					mc("mc-n2-all-points", "VerifC01", map[string]int{"N": 2, "POINTS": 7}, "start ok", "early reference served"),
 					mc("mc-n3-single", "VerifC01", map[string]int{"N": 3, "POINTS": 1}, "start ok"),
-					mc("wrap-n2", "VerifC03", map[string]int{"N": 2, "POINTS": 5}, "start ok", "wrapped"),
+					mc("wrap-n2", "VerifC03", map[string]int{"N": 2, "POINTS": 5, "REPLACE": 1}, "start ok", "wrapped", "replaced before instantiation"),
 					mc("lookups-from-init-n2", "VerifC01", map[string]int{"N": 2, "POINTS": 5, "LOOKUP": 1}, "start ok", "lookup from Init"),
 					mc("lookups-from-init-n3", "VerifC01", map[string]int{"N": 3, "POINTS": 1, "LOOKUP": 1}, "start ok", "lookup from Init"),
 					mc("wrap-n2-lookups-from-init", "VerifC03", map[string]int{"N": 2, "POINTS": 1, "LOOKUP": 1}, "start ok", "wrapped"),
@@ -105,7 +105,7 @@ func checkDefs() map[string]*CheckDef {
 		&CheckDef{ID: "C03", Title: "No stale version under substitution",
 			Runs: func(tier string) []RunSpec {
 				r := []RunSpec{
-					mc("wrap-n2", "VerifC03", map[string]int{"N": 2, "POINTS": 5}, "start ok", "start failed", "wrapped"),
+					mc("wrap-n2", "VerifC03", map[string]int{"N": 2, "POINTS": 5, "REPLACE": 1}, "start ok", "start failed", "wrapped", "replaced before instantiation"),
 					mc("wrap-n3-single", "VerifC03", map[string]int{"N": 3, "POINTS": 1}, "start ok", "wrapped"),
 					mc("wrap-n2-lookups-from-init", "VerifC03", map[string]int{"N": 2, "POINTS": 1, "LOOKUP": 1}, "start ok", "wrapped"),
 				}
@@ -185,7 +185,7 @@ func checkDefs() map[string]*CheckDef {
 			Runs: func(tier string) []RunSpec {
 				t := ExecOpts{Termination: true, MaxSteps: 1500000}
 				return []RunSpec{
-					{Name: "structured", Pkg: prc, Entry: "VerifC16Structured", Params: map[string]int{"L": 1, "D": 2, "V": tierPick(tier, 2, 3)}, MustCover: []string{"configured value used", "default used", "absent without default"}, Opts: t},
+					{Name: "structured", Pkg: prc, Entry: "VerifC16Structured", Params: map[string]int{"L": 1, "D": 2, "V": tierPick(tier, 2, 3)}, MustCover: []string{"configured value used", "default used", "absent without default", "default containing a colon"}, Opts: t},
 					{Name: "nested", Pkg: prc, Entry: "VerifC16Nested", MustCover: []string{"nested key present", "nested key absent"}, Opts: t},
 					{Name: "cyclic", Pkg: prc, Entry: "VerifC16Cyclic", MustCover: []string{"circular reference reported as an error", "resolution terminates"}, Opts: t},
 					rh("placeholder-in-wire-tag", "VerifC07", map[string]int{"K": 1, "PORDER": 0}, "name given through a placeholder"),
@@ -304,7 +304,7 @@ func checkDefs() map[string]*CheckDef {
 				return []RunSpec{
 					{Name: "load-or-store-fn", Pkg: ioc + "/util/sync2", Entry: "VerifC20LoadOrStoreFn", MustCover: []string{"same key", "different keys"}, Opts: il(tierPick(tier, 3, 4))},
 					{Name: "map-linearizable", Pkg: ioc + "/util/sync2", Entry: "VerifC20Linearizable", Params: map[string]int{"OPS": tierPick(tier, 1, 2), "KEYS": tierPick(tier, 2, 1)}, MustCover: []string{"history checked"}, Opts: il(2)},
-					{Name: "set", Pkg: ioc + "/util/list", Entry: "VerifC20Set", Params: map[string]int{"OPS": tierPick(tier, 1, 2)}, MustCover: []string{"set history checked"}, Opts: il(2)},
+					{Name: "set", Pkg: ioc + "/util/list", Entry: "VerifC20Set", Params: map[string]int{"OPS": tierPick(tier, 1, 2)}, MustCover: []string{"set history checked", "generic set"}, Opts: il(2)},
 					{Name: "scan-phase-races", Pkg: fac, Entry: "VerifC20Scan", Params: map[string]int{"N": tierPick(tier, 3, 4)}, MustCover: []string{"several scanners fail at the same time"}, Opts: ExecOpts{Sched: "join", Races: true, RealSyslog: true}},
 					{Name: "close-races", Pkg: app, Entry: "VerifC14", Params: map[string]int{"N": 3}, MustCover: []string{"several closers"}, Opts: ExecOpts{Sched: "join", Races: true, RealSyslog: true}},
 				}
